@@ -152,6 +152,79 @@ theorem postMap_run (ps : Path) (params : List (String × String × Ty)) (outs :
     rw [handleOuts_run]
     cases x <;> rfl
 
+/-! ## the repaired branch (`postMapChecked`) -/
+
+theorem postMapChecked_fs (da : Bool) (ps : Path) (params : List (String × String × Ty)) (outs : Path)
+    (kvs : List (String × J)) (fs : FS) :
+    (postMapChecked da ps params outs kvs fs).2 = (postMap da ps params outs (legalForks kvs) fs).2 := by
+  induction kvs generalizing fs with
+  | nil => rfl
+  | cons kv r ih =>
+    obtain ⟨k, x⟩ := kv
+    by_cases hk : legalName k = true
+    · simp only [postMapChecked, hk, if_true, legalForks, List.filter_cons, postMap, joinKey_legal outs k hk]
+      exact ih _
+    · simp only [postMapChecked, hk, legalForks, List.filter_cons]
+      exact ih _
+
+theorem postMapChecked_keys (da : Bool) (ps : Path) (params : List (String × String × Ty)) (outs : Path)
+    (kvs : List (String × J)) (fs : FS) :
+    (postMapChecked da ps params outs kvs fs).1.map Prod.fst = kvs.map Prod.fst := by
+  induction kvs generalizing fs with
+  | nil => rfl
+  | cons kv r ih =>
+    obtain ⟨k, x⟩ := kv
+    by_cases hk : legalName k = true
+    · simp [postMapChecked, hk, ih]
+    · simp [postMapChecked, hk, ih]
+
+theorem postMapChecked_refused (da : Bool) (ps : Path) (params : List (String × String × Ty)) (outs : Path)
+    (kvs : List (String × J)) (fs : FS) (kv : String × J) (hm : kv ∈ kvs) (hk : legalName kv.1 = false) :
+    kv ∈ (postMapChecked da ps params outs kvs fs).1 := by
+  induction kvs generalizing fs with
+  | nil => cases hm
+  | cons kv' r ih =>
+    obtain ⟨k, x⟩ := kv'
+    by_cases hl : legalName k = true
+    · simp only [postMapChecked, hl, if_true]
+      rcases List.mem_cons.mp hm with e | hm'
+      · subst e; simp [hl] at hk
+      · exact List.mem_cons_of_mem _ (ih _ hm')
+    · simp only [postMapChecked, hl]
+      rcases List.mem_cons.mp hm with e | hm'
+      · subst e; exact List.mem_cons_self
+      · exact List.mem_cons_of_mem _ (ih _ hm')
+
+theorem postMapChecked_eq_of_legal (da : Bool) (ps : Path) (params : List (String × String × Ty)) (outs : Path)
+    (kvs : List (String × J)) (fs : FS) (hl : ∀ kv ∈ kvs, legalName kv.1 = true) :
+    postMapChecked da ps params outs kvs fs = postMap da ps params outs kvs fs := by
+  induction kvs generalizing fs with
+  | nil => rfl
+  | cons kv r ih =>
+    obtain ⟨k, x⟩ := kv
+    have hk : legalName k = true := hl (k, x) (by simp)
+    simp only [postMapChecked, hk, if_true, postMap, joinKey_legal outs k hk]
+    rw [ih _ (fun kv hm => hl kv (by simp [hm]))]
+
+theorem legalForks_keys_legal (kvs : List (String × J)) : ∀ k ∈ (legalForks kvs).map Prod.fst, legalName k = true := by
+  intro k hk
+  obtain ⟨kv, hm, rfl⟩ := List.mem_map.mp hk
+  simpa using (List.mem_filter.mp hm).2
+
+theorem legalForks_keys_nodup (kvs : List (String × J)) (h : (kvs.map Prod.fst).Nodup) :
+    ((legalForks kvs).map Prod.fst).Nodup :=
+  List.Nodup.sublist (List.Sublist.map _ List.filter_sublist) h
+
+/-- every destination of the repaired branch lies below the directory of a LEGAL key, hence below outs/ -/
+theorem leavesMap_legal_under (params : List (String × String × Ty)) (outs : Path) (kvs : List (String × J))
+    (h : wfParams params = true) :
+    ∀ l ∈ leavesMap params outs (legalForks kvs), ∃ k, legalName k = true ∧ Under (outs ++ [k]) l.dest := by
+  intro l hl
+  obtain ⟨k, x, hm, hx⟩ := mem_leavesMap hl
+  have hk : legalName k = true := legalForks_keys_legal kvs k (List.mem_map.mpr ⟨(k, x), hm, rfl⟩)
+  rw [joinKey_legal outs k hk] at hx
+  exact ⟨k, hk, leaf_dest_under (leavesRec_under params _ _ h l hx)⟩
+
 /-! ## helpers for the concrete witnesses -/
 
 end Martian.PostProcess
